@@ -51,8 +51,14 @@ def checkProofOfWork (hash : Nat) (bits : Nat) : Bool :=
 /-! Bitcoin Core's reading of a compact value (`arith_uint256::SetCompact` out-flags), used by the
     property theorems as the reference notion of an *edge* encoding. -/
 
-/-- Core `fNegative`: mantissa non-zero and sign bit set. -/
-def coreNegative (c : Nat) : Bool := decide (c % 2^23 ≠ 0 ∧ (c / 2^23) % 2 = 1)
+/-- Core `fNegative`: `nWord != 0 && (nCompact & 0x00800000) != 0`, where `nWord` is the mantissa *after* the
+    right shift applied for sizes ≤ 3. -/
+def coreNegative (c : Nat) : Bool :=
+  let c := c % 2^32
+  let size := c / 2^24
+  let word := c % 2^23
+  let w := if size ≤ 3 then word / 2^(8*(3-size)) else word
+  decide (w ≠ 0 ∧ (c / 2^23) % 2 = 1)
 
 /-- Core `fOverflow`: `word ≠ 0 ∧ (size > 34 ∨ (word > 0xff ∧ size > 33) ∨ (word > 0xffff ∧ size > 32))`. -/
 def coreOverflow (c : Nat) : Bool :=
